@@ -137,7 +137,8 @@ Av1CSigs(prop, site, b, obu) ==       \* obu: the sequence header OBU as submitt
                      IF b[2] # Av1CHeader(r)[2] THEN "profile-level"
                      ELSE IF b[3] \div 128 # r.tier THEN "tier"
                      ELSE IF (b[3] \div 32) % 4 # r.hb * 2 + r.tb THEN "bit-depth"
-                     ELSE IF b[3] % 4 # r.csp THEN "chroma-sample-position" ELSE "chroma")} ELSE {})
+                     ELSE IF b[3] % 4 # r.csp THEN (IF r.mono = 1 THEN "chroma-sample-position-of-monochrome" ELSE "chroma-sample-position")
+                     ELSE "chroma")} ELSE {})
     \cup (IF b[4] \div 32 # 0 THEN {LSig(prop, "Av1C", site, "reserved-bits")} ELSE {})
     \cup (IF Slice(b, 5, Len(b)) # obu THEN {LSig(prop, "Av1C", site, "configOBUs")} ELSE {})
 
